@@ -99,7 +99,10 @@ pub fn quiet_panics() {
             "panic".to_string()
         };
         if let Ok(mut g) = LAST_PANIC.lock() {
-            *g = format!("{loc} {msg}");
+            // keep the first panic raised inside the code under test; later panics (e.g. a scope re-raising it) do not overwrite it
+            if !g.starts_with("/repo/") {
+                *g = format!("{loc} {msg}");
+            }
         }
     }));
 }
